@@ -76,6 +76,8 @@ def make_array(a: dict) -> np.ndarray:
         vals = (np.arange(n, dtype=np.float64) % 50 + 1.0)
         for pos, k in fill.get('bad_at', []):
             vals[pos % n] = OOR_VALUES[k % len(OOR_VALUES)]
+        for pos, v in fill.get('bad_values', []):   # explicit values (exact range boundaries)
+            vals[pos % n] = v
         with np.errstate(over='ignore'):
             vals = vals.astype(native)
     elif kind == 'lin':
